@@ -50,6 +50,14 @@ def runMac (_prop : String) (f : List String) (obsS : String) : Verdict :=
         | inv :: is', o :: os' =>
           if inv == "SET" then go (i + 1) is' os' ("set" :: mp) v ("late-set" :: tg) configured else
           match inv.splitOn "/" with
+          | ["apanic", _, _, _, _] =>
+            -- the key is evaluated, the value expression panics: nothing is sent, nothing reported
+            let tr := if global.isNone then [MEv.panic] else [MEv.eval 0, MEv.eval 1, MEv.panic]
+            let m := joinWith "," (tr.map fmtEv)
+            let v' := match v with
+              | some x => some x
+              | none => if o == m then none else some ("C17", "an invocation whose argument expression panics did not evaluate its arguments in order up to the panic and send nothing")
+            go (i + 1) is' os' (m :: mp) v' ("argument-panics" :: tg) global
           | ["hnest", k, vS, _, s] =>
             -- the sink refuses the gauge; the handler, once invoked, invokes `statsd_count!("from.handler", 1)`
             -- itself, whose metric is accepted: evals, E(outer), H(err), then the inner invocation's E
